@@ -70,9 +70,18 @@ func (s *serverSocket) checkMiddlewareFunc(rv reflect.Value) error {
 	return nil
 }
 
-func (s *serverSocket) callMiddlewares(values []reflect.Value) error {
+func (s *serverSocket) callMiddlewares(eventName string, args []reflect.Value) error {
 	s.middlewareFuncsMu.RLock()
 	defer s.middlewareFuncsMu.RUnlock()
+
+	if len(s.middlewareFuncs) == 0 {
+		return nil
+	}
+
+	// Signature of a middleware: func(eventName string, v ...any) error
+	values := make([]reflect.Value, 0, len(args)+1)
+	values = append(values, reflect.ValueOf(eventName))
+	values = append(values, args...)
 
 	for _, f := range s.middlewareFuncs {
 		err := s.callMiddlewareFunc(f, values)
